@@ -23,6 +23,13 @@ ASSUMPTIONS = [
     "the grade g is computed densely with threshold 1e-11; cases whose (g+1)-th Krylov vector has relative norm within [1e-13, 100 tol] are borderline and counted inconclusive for the early-termination checks",
 ]
 SUBS = ["factorisation", "factorisation", "factorisation", "eigs", "batched"]
+AVOID = set()
+
+
+def configure(tier, opts):
+    from cvh import treeprop as TP
+    AVOID.clear()
+    AVOID.update(TP.load_avoid(ID, opts))
 
 
 @st.composite
@@ -34,7 +41,7 @@ def cases(draw, tier):
     if op == "kron" and n < 4:
         op = "dense"
     return {"sub": sub, "n": n, "op": op, "cplx": draw(st.booleans()),
-            "spec": draw(st.sampled_from(["simple", "indefinite", "repeated", "clustered"])),
+            "spec": draw(st.sampled_from(["simple", "indefinite", "repeated", "clustered", "singular"])), "cstart": draw(st.integers(1, 5)) == 1,
             "seed": draw(st.integers(0, 10**6)), "start": draw(st.sampled_from(["generic", "generic", "eigvec", "grade"])),
             "g": draw(st.integers(1, n)), "max_iters": draw(st.integers(1, n + 5)), "tol_exp": draw(st.sampled_from([-12, -10, -8, -6, -3])),
             "batch": draw(st.integers(2, 3)), "mixed": draw(st.booleans())}
@@ -53,6 +60,10 @@ def build(case):
         lam = 1.0 + np.arange(n) + 0.3 * rng.random(n)
     elif spec == "indefinite":
         lam = (1.0 + np.arange(n) + 0.3 * rng.random(n)) * np.where(rng.random(n) < 0.5, -1, 1)
+    elif spec == "singular":  # a zero eigenvalue (two when n >= 4): start vectors in the null space have A v = 0 exactly for Diagonal
+        lam = 1.0 + np.arange(n) + 0.3 * rng.random(n)
+        lam[: (2 if n >= 4 else 1)] = 0.0
+        rng.shuffle(lam)
     elif spec == "repeated":
         lam = rng.choice(np.array([1.0, 2.0, 5.0])[:max(1, min(3, n))], size=n)
     else:
@@ -88,11 +99,18 @@ def build(case):
         if case["start"] == "generic" or (j >= 1 and case.get("mixed")):  # mixed batch: one special member, the rest generic
             v = rng.standard_normal(n) + (1j * rng.standard_normal(n) if np.iscomplexobj(M) else 0)
         elif case["start"] == "eigvec":
-            v = V[:, rng.integers(0, n)] * (1.5 + rng.random())
+            # singular spectrum: a null vector - exactly (A v = 0 in exact arithmetic) for Diagonal operators; for dense /
+            # Kronecker operators A v is rounding noise, which lanczos does not recognise (open finding F-C14-nullstart)
+            null_ok = case["op"] == "diag" or "null_start" not in AVOID or case.get("force_null")
+            col = int(np.argmin(np.abs(w))) if (spec == "singular" and null_ok) else int(np.argmax(np.abs(w)) if spec == "singular" else rng.integers(0, n))
+            v = V[:, col] * (1.5 + rng.random())
         else:
             idx = rng.choice(n, size=min(case["g"], n), replace=False)
             v = V[:, idx] @ (1 + rng.random(len(idx)))
-        vs.append(v.astype(M.dtype))
+        v = v.astype(M.dtype)
+        if case.get("cstart") and not np.iscomplexobj(M) and case["sub"] != "batched":
+            v = v.astype(np.complex128) * (1 + 0.5j) + 1j * rng.standard_normal(n) * (case["start"] == "generic")
+        vs.append(v)
     return A, M, vs
 
 
@@ -166,6 +184,8 @@ def check(case, out):
     out.label("sub:" + sub, "op:" + case["op"], "spec:" + case["spec"], "start:" + case["start"], "complex" if np.iscomplexobj(M) else "real",
               "max_iters:" + ("<n" if mi < n else "=n" if mi == n else ">n"))
     site = f"lanczos:{case['op']}:{case['start']}"
+    if np.linalg.norm(M @ vs[0]) <= 1e-12 * max(1.0, np.abs(M).max()) * np.linalg.norm(vs[0]) and case["op"] != "diag":
+        site += ":nullstart"
     v = vs[0]
     # grade and its borderline band
     Kfull = KR.krylov_basis(lambda q: M @ q, v, n + 1, tol=1e-11)
